@@ -15,6 +15,7 @@ from rules.core import pat, rt
 from rules.core.facts import Operand, PASS_THROUGH
 
 CRATES = ["aranya_runtime"]
+THOROUGH_CONFIGS = ["lowmem"]   # thorough tier: the same rules on the low-mem-usage build
 
 
 def run(F, rep, tier):
